@@ -61,6 +61,8 @@ type G struct {
 // Hints: conforming values for leaves whose type is restricted (by schema path).
 var Hints = map[string][]string{
 	"v/pc": {"0", "50", "100"},
+	// more fraction digits than a float32 or a %f rendering keeps
+	"v/dec9": {"0.123456789", "2.000000125", "-0.000000001", "20.00000001"},
 	// S7: a case that holds nothing but zero values
 	"iface/zn": {"0"}, "iface/zb": {"false"}, "iface/zs": {""},
 	"v/sm": {"10", "15", "20"},
